@@ -2,6 +2,9 @@ import Hl7.Model.Datatypes
 import Hl7.Model.Parse
 import Hl7.Model.Message
 import Hl7.Model.Mllp
+import Hl7.Model.Validate
+import Hl7.Model.WF
+import Hl7.Gen.Known
 import Hl7.Gen.All
 /-!
 # Line-protocol driver: one operation per input line, one canonical result line per operation.
@@ -143,6 +146,31 @@ def handle (line : String) : String :=
         match Msg.encMessage T m with
         | .ok t => "ok " ++ tohex t ++ " " ++ showNodes m.kids
         | .error e => "encexc " ++ e.show ++ " " ++ showNodes m.kids
+  | ["VALM", lvl, fg, hx] =>
+    match Msg.parseMessage Hl7.Gen.tables Defaults.std (unhex hx.toList) (lvl == "S") (fg == "1") with
+    | .error e => "exc " ++ e.show
+    | .ok m =>
+      match tablesFor m.version with
+      | none => "bad-version"
+      | some T =>
+        match Val.validateMessage T m with
+        | .ok errs => "ok " ++ "|".intercalate (errs.map (·.show))
+        | .error e => "valexc " ++ e.show
+  | ["VALS", ver, lvl, ec, hx] =>
+    match tablesFor ver, parseEC ec with
+    | some T, some ec =>
+      match Pe.segment T (unhex hx.toList) ec (lvl == "S") with
+      | .error e => "exc " ++ e.show
+      | .ok sg =>
+        match Val.validSeg T sg true with
+        | .ok errs => "ok " ++ "|".intercalate (errs.map (·.show))
+        | .error e => "valexc " ++ e.show
+    | _, _ => "bad-args"
+  | ["BADSEGS", ver] =>
+    -- executable version of the table obligation `segWF`: segment entries that are not well formed and not guard-listed
+    match tablesFor ver with
+    | some T => "ok " ++ ",".intercalate ((WF.badSegments T).filter (fun n => !(Hl7.Gen.Known.segExcluded ver).contains n))
+    | none => "bad-args"
   | ["MTYPE", hx] =>
     match Msg.getMessageType (unhex hx.toList) with
     | .ok o => "ok " ++ optHex o
